@@ -86,7 +86,8 @@ uint64_t heap_live_blocks_since(uint64_t mark);
 
 struct Stats {
   uint64_t episodes, steps, switches, stale_reads, stale_sites, spurious_cas, atomics, plains, fences, races_checked,
-    uaf_checks, allocs, frees, drain_episodes, loc_overflow, shadow_overflow, solo_episodes, solo_max_steps;
+    uaf_checks, allocs, frees, drain_episodes, loc_overflow, shadow_overflow, solo_episodes, solo_max_steps,
+    diag_atomic_races;
   uint64_t strategy_count[4];
 };
 const Stats& stats();
@@ -94,5 +95,6 @@ const Stats& stats();
 // crash context: the harness sets these so that the signal handler can print a replay line
 void set_context(const char* scenario, const char* config, uint64_t seed, uint64_t exec_index);
 void install_crash_handlers();
+void set_trace(bool on); // print every atomic operation / free to stderr (replay debugging)
 
 } // namespace xrt
